@@ -47,6 +47,15 @@ def gen_plan(prop, run_seed, tier):
     n_plates = w.choice([1, 2, 2, 3, 4, 5, 7])
     sizes = [w.choice([1, 1, 2, 3, 4, 6, 8]) for _ in range(n_plates)]
     n = w.choice([3, 3, 4, 5, 6, 8])
+    if w.random() < 0.05:  # more plates / larger plates / more samples than any plausible block size
+        kind = w.choice(["plates", "sizes", "samples"])
+        if kind == "plates":
+            n_plates = w.choice([33, 70])
+            sizes = [w.choice([1, 1, 2, 3]) for _ in range(n_plates)]
+        elif kind == "sizes":
+            sizes[w.randrange(n_plates)] = w.choice([33, 70, 130])
+        else:
+            n = w.choice([10, 12, 13])
     return dict(engine="dbalsim", prop=prop, sizes=sizes, n=n, mode=w.choice(["homo", "hetero", "platehomo"]),
                 seed=w.randrange(2**31), zero_dist=w.choice([0.0, 0.2, 0.6, 1.0 if w.random() < 0.15 else 0.3]),
                 D=w.randint(1, 3), var_span=w.choice([1, 3, 6]), sched_seed=s.randrange(2**31),
